@@ -607,3 +607,46 @@ func zxC07TimeRange() {
 	vrtAssert(zxSameRows(want, got, false), "the returned periods carry the values of the unbounded query: "+sqlString)
 	vrtReach("C07.Q")
 }
+
+// ---- C09.P -----------------------------------------------------------------------------------
+
+// C09.P — ORDER BY / LIMIT / OFFSET through the real planner: "ORDER BY k LIMIT n OFFSET m"
+// returns exactly rows m .. m+n-1 of the ordered result of the same query without LIMIT, for
+// n, m >= 0 including 0 and values beyond the row count; never more, never rows outside it.
+//
+//zx:harness prop=C09 id=C09.P tier=quick mode=real shard=n:4,m:4 R=3 quick.ny=2
+func zxC09PlannerLimit() {
+	rows := zxInRows(vrtParam("R", 3), 1)
+	tbl := zxTableOf("t", rows, 1, []string{"x"})
+	base := "SELECT a FROM t GROUP BY x, y ORDER BY x DESC, y, _time"
+	n := vrtShape("n", 4)     // LIMIT 0..3
+	m := vrtShape("m", 4) - 1 // -1: no OFFSET, else OFFSET 0..2
+	q := base + " LIMIT " + zxItoa(n)
+	if m >= 0 {
+		q = base + " LIMIT " + zxItoa(m) + ", " + zxItoa(n)
+	}
+	pa, err1 := Plan(base, zxOpts(map[string]*zxTable{"t": tbl}))
+	pl, err2 := Plan(q, zxOpts(map[string]*zxTable{"t": tbl}))
+	vrtAssert(err1 == nil && err2 == nil, "both queries plan: "+q)
+	if err1 != nil || err2 != nil {
+		return
+	}
+	all, _, aerr := zxRun(pa)
+	got, _, gerr := zxRun(pl)
+	vrtAssert(aerr == nil && gerr == nil, "both queries run")
+	lo := m
+	if lo < 0 {
+		lo = 0
+	}
+	if lo > len(all) {
+		lo = len(all)
+	}
+	hi := lo + n
+	if hi > len(all) {
+		hi = len(all)
+	}
+	want := all[lo:hi]
+	vrtAssert(len(got) == len(want), "LIMIT "+zxItoa(n)+" OFFSET "+zxItoa(lo)+" returns "+zxItoa(len(want))+" of "+zxItoa(len(all))+" rows")
+	vrtAssert(zxSameRows(want, got, true), "LIMIT/OFFSET return exactly that slice of the ordered result: "+q)
+	vrtReach("C09.P")
+}
